@@ -165,15 +165,45 @@ inductive Outcome where
   | ok | panic
   deriving Repr, DecidableEq, Inhabited
 
-/-- (*Characteristic).convert, with F9's repair: string-like formats are coerced with to.String -/
+/-- the values of an integer format, as far as a (64-bit) Go `int` holds them -/
+def Format.range : Format → Option (Int × Int)
+  | .uint8 => some (0, 255)
+  | .uint16 => some (0, 65535)
+  | .uint32 => some (0, 4294967295)
+  | .int32 => some (-2147483648, 2147483647)
+  | .uint64 => some (0, 9223372036854775807)
+  | _ => none
+
+def satI (lo hi i : Int) : Int := if i > hi then hi else if i < lo then lo else i
+
+/-- `integer(v, min, max)` of characteristic.go (F53 repair): floats are truncated and saturated (`truncate`), unsigned
+    Go integers beyond `max` give `max`, everything else goes through `to.Int64`; the result is brought into the range. -/
+def toIntSat (lo hi : Int) : GVal → Int
+  | .float x => x.truncSat lo hi
+  | v => satI lo hi (toInt64 v)
+
+/-- (*Characteristic).convert, with F9's repair (string-like formats are coerced with to.String) and F53's (integer
+    formats saturate at the range of the format) -/
 def convert (f : Format) (v : GVal) : GVal :=
   match f with
   | .float => .float (toFloat64 v)
-  | .uint8 | .uint16 | .uint32 | .uint64 => .int (intOfU64 (toUint64 v))
-  | .int32 => .int (toInt64 v)     -- F44 repair: was `int(to.Uint64(v))`, whose result for a negative number is left to the platform
+  | .uint8 => .int (toIntSat 0 255 v)
+  | .uint16 => .int (toIntSat 0 65535 v)
+  | .uint32 => .int (toIntSat 0 4294967295 v)
+  | .int32 => .int (toIntSat (-2147483648) 2147483647 v)
+  | .uint64 => .int (toIntSat 0 9223372036854775807 v)
   | .bool => .bool (toBool v)
   | .string | .tlv8 | .data => .str (toStr v)
   | .other => v
+
+/-- `convert` as it was before F53 (and after F44): unsigned formats through `int(to.Uint64(v))`, int32 through
+    `int(to.Int64(v))` — 300 or -1 in a uint8 characteristic, and for floats beyond ±2^63 whatever the platform makes of it
+    (the amd64 result is modelled) -/
+def convertOld (f : Format) (v : GVal) : GVal :=
+  match f with
+  | .uint8 | .uint16 | .uint32 | .uint64 => .int (intOfU64 (toUint64 v))
+  | .int32 => .int (toInt64 v)
+  | _ => convert f v
 
 /-- clampFloat: bounds count only when they are float64 -/
 def clampFloat (cfg : Config) (x : F64) : F64 :=
